@@ -11,7 +11,7 @@ import (
 func init() {
 	register(&Property{
 		ID:          "C13",
-		Explanation: "Decides narrow structural clauses of codec agreement: for every persisted/wire type the sibling functions Size, MarshalTo (Marshal) and Unmarshal (and SizeUpperLimit where present) reference the same set of struct fields, and for every optional field the presence test used by Size and by MarshalTo is of the same kind (nil test vs length test) - a field or a presence condition handled by one sibling but not the other makes the advertised size or the round trip wrong for values with that field set; a SizeUpperLimit never uses the exact Size() of a nested value that itself has a SizeUpperLimit; every MarshalTo/MustMarshalTo call outside the codec package takes a buffer sized from the same value's Size/SizeUpperLimit (or a pooled buffer re-checked against it); the transport frame validators' results (header decode, header CRC, payload CRC, magic number) gate delivery. Round-trip equality and numeric size bounds over all values are declined.",
+		Explanation: "Decides narrow structural clauses of codec agreement: for every persisted/wire type the sibling functions Size, MarshalTo (Marshal) and Unmarshal (and SizeUpperLimit where present) reference the same set of struct fields, and for every optional field the presence test used by Size and by MarshalTo is of the same kind (nil test vs length test) - a field or a presence condition handled by one sibling but not the other makes the advertised size or the round trip wrong for values with that field set; a SizeUpperLimit never uses the exact Size() of a nested value that itself has a SizeUpperLimit; every MarshalTo/MustMarshalTo call outside the codec package takes a buffer sized from the same value's Size/SizeUpperLimit (or a pooled buffer re-checked against it); the transport frame validators' results (header decode, header CRC, payload CRC, magic number) gate delivery. Round-trip equality and numeric size bounds over all values are declined. Every varint decode loop masks 7 bits, steps by 7 and ends below 0x80; presence of a nested value is decided by that value, and sizing counts it whenever the encoder writes it.",
 		NotCovered:  "decode(encode(v)) == v and encoded length <= advertised size for all values (value-level; not applicable to static analysis); compression round trip",
 		Run:         runC13,
 	})
